@@ -76,6 +76,11 @@ func (m *Model) start() {
 			case <-ctx.Done():
 				ticker.Stop()
 				return
+			case <-m.vx.Done():
+				// Vaxis was closed: nobody is left to run the
+				// function Stop queues
+				ticker.Stop()
+				return
 			case <-ticker.C:
 				m.mu.Lock()
 				m.frame = (m.frame + 1) % len(m.Frames)
